@@ -278,9 +278,35 @@ pub fn oneway(cex: &Value) -> Result<String, String> {
 }
 
 /// string form round trip for lists of several sizes (up to 24 Mi entries = 3 MiB), sparse and dense content
-pub fn codec(_cex: &Value) -> Result<String, String> {
-  let r = no_panic(|| -> Vec<String> {
+pub fn codec(cex: &Value) -> Result<String, String> {
+  let only: Option<String> = cex.get("only").and_then(Value::as_str).map(str::to_owned);
+  let r = no_panic(move || -> Vec<String> {
     let mut log = Vec::new();
+    // [new]: sizes round both ends of every residue mod 16: exactly ceil(n / 8) bytes, every in-range index usable, below minimum refused
+    for n in (131_072usize..131_072 + 40).chain(1_000_000..1_000_000 + 17) {
+      match StatusList2021::new(n) {
+        Ok(mut l) => {
+          if l.len() != (n + 7) / 8 * 8 {
+            log.push(format!("[new] new({n}).len() = {}", l.len()));
+          }
+          if l.set(n - 1, true).is_err() || l.get(n - 1).ok() != Some(true) || l.get(0).ok() != Some(false) {
+            log.push(format!("[new] last entry of new({n}) is not usable"));
+          }
+          if l.get(l.len()).is_ok() {
+            log.push(format!("[new] index len() of new({n}) is readable"));
+          }
+        }
+        Err(e) => log.push(format!("[new] new({n}) refused: {e}")),
+      }
+    }
+    for n in [0usize, 1, 8, 131_071, 131_064] {
+      if StatusList2021::new(n).is_ok() {
+        log.push(format!("[new] new({n}) accepted below the minimum size"));
+      }
+    }
+    if only.as_deref() == Some("[new]") {
+      return log;
+    }
     for entries in [131_072usize, 131_080, 1_000_000, 16_777_216, 16_777_224, 25_165_824] {
       let mut l = match StatusList2021::new(entries) {
         Ok(l) => l,
@@ -344,8 +370,11 @@ pub fn status_eval(_cex: &Value) -> Result<String, String> {
               .status(entry)
               .build()
               .unwrap();
-            let got = JwtCredentialValidatorUtils::check_status_with_status_list_2021(&cred, &list, StatusCheck::Strict);
-            let want = if !same_list || entry_purpose != list_purpose {
+            for check in [StatusCheck::Strict, StatusCheck::SkipUnsupported, StatusCheck::SkipAll] {
+            let got = JwtCredentialValidatorUtils::check_status_with_status_list_2021(&cred, &list, check);
+            let want = if check == StatusCheck::SkipAll {
+              "ok"
+            } else if !same_list || entry_purpose != list_purpose {
               "invalid"
             } else if !set {
               "ok"
@@ -361,7 +390,8 @@ pub fn status_eval(_cex: &Value) -> Result<String, String> {
               Err(_) => "invalid",
             };
             if have != want {
-              log.push(format!("list {list_purpose:?}, entry {entry_purpose:?} index {idx} (set={set}), same list {same_list}, own id form {own_id}: reported {have}, expected {want}"));
+              log.push(format!("list {list_purpose:?}, entry {entry_purpose:?} index {idx} (set={set}), same list {same_list}, own id form {own_id}, {check:?}: reported {have}, expected {want}"));
+            }
             }
           }
           }
